@@ -26,10 +26,14 @@ def gen_path(rng, thorough):
             for a, v in tgt.items():
                 pos[a] = v
         elif k == 3:
-            tgt = {a: Fraction(rng.randint(-160, 160), 8) for a in range(3) if rng.random() < 0.6}
-            els.append(("move_absolute", tgt))
-            for a, v in tgt.items():
-                pos[a] = v
+            # absolute-bypass moves, often several in a row with the caller re-asserting the mode it is in between them
+            for rep in range(rng.choice([1, 1, 2, 3])):
+                if rep and rng.random() < 0.7:
+                    els.append(("reassert",))
+                tgt = {a: Fraction(rng.randint(-160, 160), 8) for a in range(3) if rng.random() < 0.6}
+                els.append(("move_absolute", tgt))
+                for a, v in tgt.items():
+                    pos[a] = v
         elif k == 4:
             els.append(("ctx", rng.choice(["absolute", "relative"])))
         elif k == 5:
@@ -124,6 +128,8 @@ def execute(els, relative, dp=5):
             for a, v in el[1].items():
                 logical[a] = float(v)
             g.move_absolute(**kw)
+        elif k == "reassert":
+            g.set_distance_mode("relative" if rel else "absolute")
         elif k == "ctx":
             cm = g.absolute_mode() if el[1] == "absolute" else g.relative_mode()
             cm.__enter__()
@@ -185,7 +191,9 @@ def main():
     run = Run(PID)
     st = standard_proof_phase(run, PID)
     n = 1200 if run.thorough else 150
-    paths = [[("start", (Fraction(0), Fraction(0), Fraction(0))), ("circle", (-7.0, 3.0)), ("move", {0: Fraction(4), 1: Fraction(1)}), ("arc", (0.0, 0.0), (-2.0, -0.5))],
+    paths = [[("start", (Fraction(5), Fraction(5), Fraction(0))), ("move_absolute", {2: Fraction(10)}), ("reassert",), ("move_absolute", {0: Fraction(40), 1: Fraction(20)}),
+              ("move", {2: Fraction(0)}), ("move", {0: Fraction(45)}), ("circle", (-5.0, 0.0))],
+             [("start", (Fraction(0), Fraction(0), Fraction(0))), ("circle", (-7.0, 3.0)), ("move", {0: Fraction(4), 1: Fraction(1)}), ("arc", (0.0, 0.0), (-2.0, -0.5))],
              [("start", (Fraction(6), Fraction(2), Fraction(1))), ("polyline", [(3.0, 3.0, 1.0), (0.0, 0.0, 0.0), (5.0, 0.0, 0.0)]), ("spline", [(2.0, 4.0, 0.0), (0.0, 0.0, 0.0), (-3.0, 1.0, 0.0)])],
              [("start", (Fraction(10), Fraction(0), Fraction(0))), ("circle", (-10.0, 0.0))],
              [("start", (Fraction(12), Fraction(0), Fraction(0))), ("ctx", "relative"), ("move_absolute", {1: Fraction(3)}), ("move", {0: Fraction(13)}),
